@@ -1,5 +1,6 @@
 import EudoxiaModel.Proofs.Lift
 import EudoxiaModel.Model.Obs
+import EudoxiaModel.Proofs.FreshWorlds
 /-! # C04 — memory limits hold after every tick and reported usage is the real usage -/
 namespace Eudoxia.C04
 open Eudoxia
@@ -74,5 +75,51 @@ theorem checker_accepts_invariant {p : Pool} (m : MemOK p) : memoryOkB p.toObs =
   refine ⟨⟨?_, m.sum⟩, m.cap⟩
   rintro _ ⟨c, hc, rfl⟩
   exact (m.ok c hc).2.2
+
+/-! ### full simulations under the shipped schedulers (the property's "for all full simulations")
+
+The executor's invariant `WorldReady`, which the whole-run theorems of C08 / C18 carry through every tick of every run, contains the memory invariant.
+`arrivals` is any list of arrival batches, one per tick, so the world after the run is the world at an arbitrary tick boundary. -/
+
+/-- what `WorldReady` says about memory -/
+theorem ready_world_keeps_limits {w : World} (hr : WorldReady w) :
+    ∀ p ∈ w.pools,
+      (∀ c ∈ p.active, c.mem ≤ c.ram ∧ c.completed = false ∧ c.frozen = false) ∧
+      p.consumed = memSum p.active ∧ p.consumed ≤ p.capR := by
+  intro p hp
+  have m := (hr.pools p hp).1.2
+  exact ⟨fun c hc => ⟨(m.ok c hc).2.2, (m.ok c hc).1, (m.ok c hc).2.1⟩, m.sum, m.cap⟩
+
+/-- **`priority` (multi-operator containers, pre-emption)**: on every tick of every run from a fresh world, every running container is within its allocation
+and the reported usage is the real usage and fits the pool -/
+theorem limits_hold_on_every_tick_of_every_priority_run (cfg : Cfg) (store : Store) (pipes : Array PipeInfo) (caps : List (Nat × Nat))
+    (arrivals : List (List Nat)) (hm : cfg.multiOp = true) (ho : cfg.overcommit = false) (hq : 0 < cfg.q)
+    (wf : (freshWorld cfg store pipes caps).WFP) (hs : (freshWorld cfg store pipes caps).SegsOK) (hp : (freshWorld cfg store pipes caps).PidOK)
+    (ht : (freshWorld cfg store pipes caps).Topo) (hF : arrivals.flatten.Nodup)
+    (hfut : ∀ pid ∈ arrivals.flatten, (pipes.getD pid default).order ≠ [] ∧ ∀ o ∈ (pipes.getD pid default).order, store.stOf o = OpState.pending) :
+    ∃ w' st' res', Prio.loop (freshWorld cfg store pipes caps) {} [] arrivals = .ok (w', st', res') ∧
+      ∀ p ∈ w'.pools, (∀ c ∈ p.active, c.mem ≤ c.ram ∧ c.completed = false ∧ c.frozen = false) ∧ p.consumed = memSum p.active ∧ p.consumed ≤ p.capR := by
+  obtain ⟨w', st', cs', js', h, inv⟩ := PM.run_never_raises arrivals _ {} [] [] (PM.fresh_inv cfg store pipes caps _ hm ho hq wf hs hp ht hF hfut)
+  exact ⟨w', st', _, h, ready_world_keeps_limits inv.ready⟩
+
+/-- **`priority-pool` (multi-operator containers)** -/
+theorem limits_hold_on_every_tick_of_every_priority_pool_run (cfg : Cfg) (store : Store) (pipes : Array PipeInfo) (c0 c1 : Nat × Nat)
+    (arrivals : List (List Nat)) (hm : cfg.multiOp = true) (hq : 0 < cfg.q) (h0 : 0 < c0.1 ∧ 0 < c0.2) (h1 : 0 < c1.1 ∧ 0 < c1.2)
+    (wf : (freshWorld cfg store pipes [c0, c1]).WFP) (hs : (freshWorld cfg store pipes [c0, c1]).SegsOK) (hp : (freshWorld cfg store pipes [c0, c1]).PidOK)
+    (ht : (freshWorld cfg store pipes [c0, c1]).Topo) (hF : arrivals.flatten.Nodup)
+    (hfut : ∀ pid ∈ arrivals.flatten, (pipes.getD pid default).order ≠ [] ∧ ∀ o ∈ (pipes.getD pid default).order, store.stOf o = OpState.pending) :
+    ∃ w' st' res', PP.loop (freshWorld cfg store pipes [c0, c1]) {} [] arrivals = .ok (w', st', res') ∧
+      ∀ p ∈ w'.pools, (∀ c ∈ p.active, c.mem ≤ c.ram ∧ c.completed = false ∧ c.frozen = false) ∧ p.consumed = memSum p.active ∧ p.consumed ≤ p.capR := by
+  obtain ⟨w', st', cs', h, inv⟩ := PP.run_never_raises arrivals _ {} [] (PP.fresh_inv cfg store pipes c0 c1 _ hm hq h0 h1 wf hs hp ht hF hfut)
+  exact ⟨w', st', _, h, ready_world_keeps_limits inv.ready⟩
+
+/-- **`overbook` (memory overcommit enabled)**: allocations may add up to more than the pool, the memory actually used never does after a tick -/
+theorem limits_hold_on_every_tick_of_every_overbook_run (cfg : Cfg) (store : Store) (pipes : Array PipeInfo) (caps : List (Nat × Nat))
+    (arrivals : List (List Nat)) (ho : cfg.overcommit = true) (hc : ∀ c ∈ caps, 0 < c.2)
+    (wf : (freshWorld cfg store pipes caps).WFP) (hs : (freshWorld cfg store pipes caps).SegsOK) :
+    ∃ w' st' res', Overbook.loop (freshWorld cfg store pipes caps) {} [] arrivals = .ok (w', st', res') ∧
+      ∀ p ∈ w'.pools, (∀ c ∈ p.active, c.mem ≤ c.ram ∧ c.completed = false ∧ c.frozen = false) ∧ p.consumed = memSum p.active ∧ p.consumed ≤ p.capR := by
+  obtain ⟨w', st', res', h, inv⟩ := Overbook.run_never_raises arrivals _ {} [] (Overbook.fresh_inv cfg store pipes caps ho hc wf hs)
+  exact ⟨w', st', res', h, ready_world_keeps_limits inv.ready⟩
 
 end Eudoxia.C04
